@@ -117,7 +117,7 @@ func vh_C04_check() {
 	want := vxHMACSHA1(key, refIntegritySpan(raw, off))
 	// constructive cases (so that every counterexample replays with the real HMAC)
 	good := false
-	switch vxChoose(3) {
+	switch vxChoose(4) {
 	case 0: // the correct MAC, 20 bytes
 		if len(mac) != 20 {
 			return
@@ -131,7 +131,7 @@ func vh_C04_check() {
 		}
 		copy(mac, want[:])
 		vxReach("wrong-length")
-	default: // 20 bytes, one of them wrong
+	case 2: // 20 bytes, one of them wrong
 		if len(mac) != 20 {
 			return
 		}
@@ -140,6 +140,22 @@ func vh_C04_check() {
 		vxAssume(x != 0)
 		mac[p] ^= x
 		vxReach("corrupted-mac")
+	default:
+		// a MAC (of any length) computed over ANY OTHER prefix of the message with ANY length field:
+		// must not verify.  This is the constructive form of "equals HMAC over exactly the RFC span".
+		e, l := vxLen(1<<16), vxU16()
+		vxAssume(e >= 4)
+		vxAssume(e <= len(raw))
+		other := make([]byte, e)
+		copy(other, raw[:e])
+		other[2], other[3] = byte(l>>8), byte(l)
+		wantOther := vxHMACSHA1(key, other)
+		if len(mac) == 20 {
+			vxAssume(e != off || int(l) != off+4) // a different span ...
+			vxAssume(wantOther != want)          // ... has a different HMAC (cryptographic idealisation, stated)
+		}
+		copy(mac, wantOther[:])
+		vxReach("mac-over-other-span")
 	}
 	snap := vxSnapshot(m)
 	err := i.Check(m)
